@@ -452,6 +452,51 @@ def run(ctx, report):
         else:
             R7.ok(inst, sample='every store site passes a simplified cell')
 
+    # ---------------------------------------------------------------- D8 width-indexed tables cover every constant width
+    R8 = report.rule('C06.D8', 'tables the evaluators index with the operand width cover every width a constant can have', floor=1)
+    def int_keys(name):
+        try:
+            node = ea.assign_value(name)
+        except AnalysisError:
+            return None
+        if not isinstance(node, ast.Dict):
+            return None
+        return [k.value for k in node.keys if isinstance(k, ast.Constant) and isinstance(k.value, int)]
+    widths = None
+    node = None
+    try:
+        node = ea.assign_value('tab_int_size')
+    except AnalysisError:
+        pass
+    if isinstance(node, ast.Dict):
+        widths = sorted(v.value for v in node.values if isinstance(v, ast.Constant) and isinstance(v.value, int))
+    if not widths:
+        raise AnalysisError('tab_int_size (type -> width of the operands of eval_ExprOp) is not a literal dict')
+    used = {}
+    for name, fn in sorted(methods.items()):
+        if not name.startswith('eval_op'):
+            continue
+        for n in walk_no_nested(fn):
+            if isinstance(n, ast.Subscript) and isinstance(n.value, ast.Name) and u(n.slice) == 'op_size':
+                used.setdefault(n.value.id, name)
+    for tname in sorted(used):
+        keys = int_keys(tname)
+        if keys is None:
+            continue
+        missing = [w for w in widths if w not in keys]
+        inst = 'table %s[op_size]' % tname
+        # tables used only by evaluators whose operators exist for some widths only are judged on those evaluators' operators; the mask table is used by all
+        users = sorted(nm for nm, f in methods.items() if nm.startswith('eval_op') and any(isinstance(x, ast.Subscript) and isinstance(x.value, ast.Name) and x.value.id == tname
+                                                                                      and u(x.slice) == 'op_size' for x in walk_no_nested(f)))
+        general = any(deal.get(o) in users for o in ('!', '<<', '>>', '<<<', '>>>'))
+        if missing and general:
+            R8.violation(inst, 'width-table:%s:%s' % (tname, missing), '%s has no entry for width %s (constants of that width exist: tab_int_size), but %s index it with the operand width: KeyError'
+                         % (tname, missing, users[:4]), where(ea, ea.assigns[tname][-1]), witness="eval_expr(ExprOp('!', ExprInt(uint1(1)))) raises KeyError(1)")
+        elif general:
+            R8.ok(inst, sample='%s covers widths %s' % (tname, widths))
+        else:
+            R8.ok(inst, nontrivial=False)
+
     R4 = report.rule('C06.D4', 'results are cast to the operands\' type; identifiers are looked up exactly', floor=2)
     txt = u(eo)
     if 'return ExprInt(cast_int(ret_value))' in txt and 'cast_int = types_tab[0]' in txt and 'types_tab = [type(a) for a in args]' in txt:
@@ -665,6 +710,7 @@ def run(ctx, report):
 
 
 MUTANTS = [
+    ('maxuint-no-1', 'miasmx/expression/expression_eval_abstract.py', "mymaxuint = {1:0x1,\n             8:0xFF,", "mymaxuint = {8:0xFF,", 'C06.D8'),
     ('mpool-raw-key', 'miasmx/expression/expression_eval_abstract.py', "        return expr_simp(a.arg)\n    def __contains__", "        return a.arg\n    def __contains__", 'C06.D7'),
     ('compose-no-const-slice', 'miasmx/expression/expression_eval_abstract.py', "            if isinstance(x, ExprSlice) and isinstance(x.arg, ExprInt):\n                return (int(x.arg.arg) >> x.start) & ((1<<(x.stop-x.start))-1)\n", "", 'C06.D6'),
     ('nocheck-misspelt', 'miasmx/expression/expression_eval_abstract.py', "    op_size_no_check = ['<<<', '>>>', 'a>>', '>>', '<<',", "    op_size_no_check = ['<<<', '>>>', 'a<<', '>>', '<<',", 'C06.D1'),
